@@ -1,4 +1,5 @@
 import Cirbo.Proofs.GenMul
+import Cirbo.Proofs.GenLevels
 /-!
 # C08 — Multiplier and squarer generators compute exact products
 
@@ -6,7 +7,9 @@ import Cirbo.Proofs.GenMul
 -- OBLIGATION: c08_partial_products
 -- OBLIGATION: c08_mul_alter
 -- OBLIGATION: c08_mul_default_partial
--- PARTIAL: proved: the frame theorem for every mode (all are Prog programs), the partial-product matrix (sum_i 2^i*row_i = a*b), add_mul_alter = a*b exactly (positional), add_mul (DEFAULT) = a*b as a weighted sum with strictly increasing levels (that the levels are exactly 0,1,2,... — i.e. the positional decode and the n+m width — is not proved yet). Karatsuba (both variants, all recursion thresholds), Dadda, Wallace, 2^k-1 mode and both squarers are modelled one-to-one (Model/Gen3.lean) and compared gate for gate with the code on every run (widths up to 40x40, 48..56 for the squarer split), and the search checks values exhaustively/densely and the result widths on the real generators; their value theorems are not proved yet.
+-- OBLIGATION: c08_mul_default
+-- OBLIGATION: c08_weighted_levels_positional
+-- PARTIAL: proved: the frame theorem for every mode (all are Prog programs), the partial-product matrix (sum_i 2^i*row_i = a*b), add_mul_alter = a*b exactly (positional), add_mul (DEFAULT) = a*b exactly (positional: on gapless weights the weighted sum returns the levels 0,1,2,... in order); only its result width n+m is not proved. Karatsuba (both variants, all recursion thresholds), Dadda, Wallace, 2^k-1 mode and both squarers are modelled one-to-one (Model/Gen3.lean) and compared gate for gate with the code on every run (widths up to 40x40, 48..56 for the squarer split), and the search checks values exhaustively/densely and the result widths on the real generators; their value theorems are not proved yet.
 -/
 namespace Cirbo
 
@@ -49,9 +52,29 @@ theorem c08_mul_default_partial {st st' : GSt} {x y out : List Label} {be : Bool
   refine ⟨v', h1, h2, lv, e1, e2, ?_⟩
   rw [e3, valLE_congr (fun l hl => h2 l (hx l (mem_revIf.mp hl))), valLE_congr (fun l hl => h2 l (hy l (mem_revIf.mp hl)))]
 
+/-- on weights without gaps (as the partial products have) `add_sum_n_weighted_bits` returns level `k`
+at position `k` -/
+theorem c08_weighted_levels_positional {v : Label → Bool} {ins out : List (Nat × Label)} {basis : BasisArg}
+    (h : Sem (addSumWeighted ins basis) v out) (hg : Gapless 0 (ins.map (·.1))) :
+    out.map (·.1) = List.range out.length := sem_addSumWeighted_levels h hg
+
+/-- **`add_mul` (DEFAULT)** on arbitrary host gates: read in the requested endianness the returned
+bits are exactly `a·b` -/
+theorem c08_mul_default {st st' : GSt} {x y out : List Label} {be : Bool}
+    (h : (addMul x y be).run st = .ok (out, st')) (hw : WFS st.c) (hx1 : 1 ≤ x.length)
+    (hx : ∀ l ∈ x, l ∈ st.c.labels) (hy : ∀ l ∈ y, l ∈ st.c.labels) {b v : Label → Bool} (hv : IsValB st.c b v) :
+    ∃ v', IsValB st'.c b v' ∧ (∀ l ∈ st.c.labels, v' l = v l) ∧
+      valLE v' (revIf out be) = valLE v (revIf x be) * valLE v (revIf y be) := by
+  obtain ⟨v', h1, h2, h3⟩ := run_total h hw hv
+  refine ⟨v', h1, h2, ?_⟩
+  rw [sem_addMul h3 hx1, valLE_congr (fun l hl => h2 l (hx l (mem_revIf.mp hl))),
+    valLE_congr (fun l hl => h2 l (hy l (mem_revIf.mp hl)))]
+
 #print axioms c08_generators_only_add_fresh_gates
 #print axioms c08_partial_products
 #print axioms c08_mul_alter
 #print axioms c08_mul_default_partial
+#print axioms c08_mul_default
+#print axioms c08_weighted_levels_positional
 
 end Cirbo
